@@ -83,7 +83,13 @@ __CPROVER_ensures(OUT_NT >= 1 && OUT_T[OUT_NT - 1].t == TK_T_EOF) /*@C02*/
 __CPROVER_ensures(OUT_NT < 2 || (OUT_T[OUT_NT - 1].file._id == OUT_T[OUT_NT - 2].file._id && OUT_T[OUT_NT - 1].line == OUT_T[OUT_NT - 2].line)) /*@C02*/
 /* ... or, when nothing was scanned, on line 1 of the main file / at the '-' placeholder */
 __CPROVER_ensures(OUT_NT != 1 || (OUT_T[0].file._id == g_main && OUT_T[0].line == 1) || (OUT_T[0].file._id == LIT__ && OUT_T[0].line == -1)) /*@C02*/
-/* C15/C02: every scanner error (arbitrary index g_e) is of a scanner kind
+/* C15/C02: every scanner error (arbitrary index g_e) is of a scanner kind; an absent main file is reported at the placeholder
+ * and requests the main file; an absent include requests a name that is not a key of the file map (at the ghost index the
+ * map model exposes); no other error carries a request */
+__CPROVER_ensures(g_e >= OUT_NE || ERR_SHAPE(OUT_E[g_e])) /*@C15,C02*/
+/* C15: every include directive whose file-name slot is not a quoted name (also: cut off by the end of the file), and every
+ * unknown token outside such a slot, is reported exactly once */
+__CPROVER_ensures(g_cnt_expected == g_yy_expected && g_cnt_unknown == g_yy_unknown) /*@C15,C02*/
 /* reachability of the cases (each must FAIL) */
 __CPROVER_ensures(OUT_NT != 1) /*@CANARY*/
 __CPROVER_ensures(OUT_NT < 2) /*@CANARY*/
@@ -92,13 +98,7 @@ __CPROVER_ensures(g_cnt_expected == 0) /*@CANARY*/
 __CPROVER_ensures(g_cnt_unknown == 0) /*@CANARY*/
 __CPROVER_ensures(g_e >= OUT_NE || OUT_E[g_e].t != PE_FILE_NOT_FOUND) /*@CANARY*/
 __CPROVER_ensures(g_e >= OUT_NE || OUT_E[g_e].t != PE_RECURSIVE_INCLUDE) /*@CANARY*/
-__CPROVER_ensures(g_e >= OUT_NE || OUT_E[g_e].t != PE_MAIN_FILE_NOT_FOUND) /*@CANARY*/; an absent main file is reported at the placeholder
- * and requests the main file; an absent include requests a name that is not a key of the file map (at the ghost index the
- * map model exposes); no other error carries a request */
-__CPROVER_ensures(g_e >= OUT_NE || ERR_SHAPE(OUT_E[g_e])) /*@C15,C02*/
-/* C15: every include directive whose file-name slot is not a quoted name (also: cut off by the end of the file), and every
- * unknown token outside such a slot, is reported exactly once */
-__CPROVER_ensures(g_cnt_expected == g_yy_expected && g_cnt_unknown == g_yy_unknown) /*@C15,C02*/;
+__CPROVER_ensures(g_e >= OUT_NE || OUT_E[g_e].t != PE_MAIN_FILE_NOT_FOUND) /*@CANARY*/;
 #ifdef SPEC_CHECKS_OFF
 #pragma CPROVER check pop
 #endif
